@@ -100,7 +100,7 @@ Live(s) == s \in DOMAIN sess /\ sess[s].st = "joined"
 FreshIn(S) == (CHOOSE n \in 100001..100200 : n \notin S)
 Pick(b, S) == IF b # 0 THEN b ELSE FreshIn(S)
 
-Apply(i, b) ==
+ApplyAllowed(i, b) ==
   CASE i.op = "skip" -> UNCHANGED vars
     [] i.op = "snap" -> Commit(Cur)
     [] i.op = "join" ->
@@ -145,6 +145,15 @@ Apply(i, b) ==
          /\ \E pick \in (IF b.reg # 0 THEN {b.reg} ELSE {regs[k].id : k \in BestRegs(Cur, i.uri2)} \cup {0}) :
               /\ MetaPre(Cur, i, pick)
               /\ Commit(MetaCallFx(Cur, i.s, i.req, i, b.hp, pick))
+
+
+Apply(i, b) ==
+  IF MsgType(i) = "" \/ ~Live(i.s) THEN ApplyAllowed(i, b)
+  ELSE LET dec == Decision(Cur, i.s, MsgType(i)) IN
+       CASE dec = "allow"   -> ApplyAllowed(i, b)
+         [] dec = "rewrite" -> ApplyAllowed([i EXCEPT !.tag = "rw"], b)     \* acted upon in the form the authorizer left it
+         [] OTHER           -> Commit(RefuseFx(Cur, i.s, TypeCode(MsgType(i)), IF i.op \in {"yield"} THEN i.id ELSE i.req, dec,
+                                               i.op = "publish" /\ ~i.o.ack))
 
 \* --------------------------------------------------------------------------
 IsEvent(e) == l <= Len(TraceLog) /\ TraceLog[l].ev = e /\ l' = l + 1
